@@ -211,6 +211,18 @@ func (r *Router) addHandlerLevelMiddleware(handlerName string, m ...HandlerMiddl
 	}
 }
 
+func (r *Router) removeHandlerLevelMiddlewares(handlerName string) {
+	r.middlewaresLock.Lock()
+	defer r.middlewaresLock.Unlock()
+	kept := make([]middleware, 0, len(r.middlewares))
+	for _, m := range r.middlewares {
+		if m.IsRouterLevel || m.HandlerName != handlerName {
+			kept = append(kept, m)
+		}
+	}
+	r.middlewares = kept
+}
+
 // AddPlugin adds a new plugin to the router.
 // Plugins are executed during startup of the router.
 //
@@ -464,6 +476,8 @@ func (r *Router) RunHandlers(ctx context.Context) error {
 
 			r.handlersLock.Lock()
 			delete(r.handlers, name)
+			// the name is free again: a handler added under it later must not inherit this handler's middlewares
+			r.removeHandlerLevelMiddlewares(name)
 			r.handlersLock.Unlock()
 
 			logger.Trace("Removed subscriber from r.handlers", nil)
